@@ -251,10 +251,12 @@ def _check_result_from_good_vector(case, c, r, res, capture, suffix):
     want = np.sort(obj)  # data entries of all groups plus the penalties: got must be a sub-multiset
     ok = got.size <= want.size
     jj = 0
+    # tolerance on the scale of the vector (a non-negative parameter of value exactly 1 is moved by 1e-10 by the documented guard)
+    atol = 1e-8 * max(float(np.abs(want).max()) if want.size else 0.0, 1e-300)
     for v in got:
-        while jj < want.size and want[jj] < v - (1e-9 * abs(v) + 1e-12):
+        while jj < want.size and want[jj] < v - atol:
             jj += 1
-        if jj >= want.size or abs(want[jj] - v) > 1e-9 * abs(v) + 1e-12:
+        if jj >= want.size or abs(want[jj] - v) > atol:
             ok = False
             break
         jj += 1
